@@ -222,9 +222,9 @@ def run_lines(cmd, lines, cwd=None, timeout=3600, restart_on_death=True):
 
 
 def run_driver(lines, timeout=None):
-    # a healthy quick-tier driver run takes well under a minute; the thorough tier feeds it chunks of the campaign
+    # a healthy quick-tier driver run takes a minute or two at most; the thorough tier feeds it chunks of the campaign
     if timeout is None:
-        timeout = 300 if os.environ.get("FX_TIER", "quick") == "quick" else 3600
+        timeout = 900 if os.environ.get("FX_TIER", "quick") == "quick" else 7200
     return run_lines([DRV], lines, timeout=timeout, restart_on_death=False)
 
 
